@@ -47,6 +47,9 @@ RULE = (
     " Also: timeouts 0 / 0.001 / 3600 / 10^6+0.5, replies of 0..65527 octets (65507 on the re"
     "al socket too), and every spelling of the call (keywords, the documented positional orde"
     "r, loop=None, no loop)."
+    " Thirteen BER-like reply contents (valid message, trailing octets, truncated, odd length"
+    " forms) must come back unmodified; outcome \"closed\" = the attempt's transport goes away "
+    "without an error (retried or reported, never CancelledError)."
 )
 ASSUMPTIONS = [
     "the fake transport follows asyncio's selector datagram transport closing semantics (no delivery after close/abort, connection_lost via call_soon)",
